@@ -24,11 +24,13 @@ Top(l) == IF l[1] < 0 THEN l[1] + 65536 ELSE l[1]
 Neg(l) == Top(l) >= 32768
 Mag(l) == <<Top(l) % 32768, l[2], l[3], l[4]>>
 IsZero(l) == Mag(l) = <<0, 0, 0, 0>>
-FloatCmp(a, b) ==
-  IF IsZero(a) /\ IsZero(b) THEN 0
+IsNaN(l) == LET m == Mag(l) IN m[1] >= 32752 /\ (m[1] > 32752 \/ m[2] # 0 \/ m[3] # 0 \/ m[4] # 0)     \* exponent all ones, fraction not zero
+FloatCmp(a, b) ==                                  \* NaN (outside C09's statement) is equal to NaN only and above every number
+  IF IsNaN(a) \/ IsNaN(b) THEN (IF IsNaN(a) THEN 1 ELSE 0) - (IF IsNaN(b) THEN 1 ELSE 0)
+  ELSE IF IsZero(a) /\ IsZero(b) THEN 0
   ELSE IF Neg(a) /\ ~Neg(b) THEN -1 ELSE IF ~Neg(a) /\ Neg(b) THEN 1
   ELSE IF ~Neg(a) THEN LexCmp(Mag(a), Mag(b)) ELSE LexCmp(Mag(b), Mag(a))
-FloatNorm(l) == IF IsZero(l) THEN <<0, 0, 0, 0>> ELSE l
+FloatNorm(l) == IF IsZero(l) THEN <<0, 0, 0, 0>> ELSE IF IsNaN(l) THEN <<32760, 0, 0, 0>> ELSE l       \* one zero, one NaN
 
 RECURSIVE RefCmp(_, _)
 RECURSIVE SeqCmp(_, _)
